@@ -2,6 +2,8 @@
 from lib import recdsl as rd
 from lib import pyvals as pv
 from props.rec_common import *  # noqa: F401,F403
+from props import rec_common as _rc
+from props import rec2_cases as r2
 
 ID = "C18"
 LOG_LEVEL_INVARIANT = True      # (harness/vp.py: a sample of the cases again with logging at DEBUG; same observables)
@@ -18,11 +20,16 @@ RULE = ("one case = a history of 2-5 runs on one real recorder: operations of tw
         "in the derived class or inherited; a deterministic grid over level x inherited x termination x extractor); after each "
         "history the lookup is asked through properties objects in every state reached after construction (skip_incomplete "
         "switched on / off / toggled, .metadata reassigned, one object for all categories and looked up twice); "
+        "a recorded operation inside which a replay / another decorated operation runs before it returns, raises or is "
+        "interrupted (kind nested_scope: the saved metadata and the default lookup speak about the ENCLOSING run); a grid in "
+        "which the reserved text '_tape_recorder_operation' turns up in input arguments / keyword arguments / input aliases / "
+        "record_data keys / output arguments of returning, raising and interrupted runs (both implementation only); "
         "non-trivial = a run that is saved; distinct = distinct history")
 ASSUMPTIONS = ["duration and timestamp come from the OS clock: only sanity (0 <= duration < 1h; the timestamp is a naive UTC time "
                "within two minutes of the save, also when the process's local time zone is not UTC) is checked by the harness, "
                "they are excluded from the model comparison",
-               "output aliases / user keys do not contain '_tape_recorder_operation' (hypothesis sites_ok clean)"]
+               "output aliases do not contain '_tape_recorder_operation' (hypothesis sites_ok clean of the theorem; the direct predicate "
+               "also runs input arguments / input aliases / data keys carrying that text)"]
 TRUSTED = ["harness-side undecorated twin interpreter (termination mode of the run) used by the direct predicate"]
 THEOREMS = ["C18_metadata_truth", "C18_flags", "C18_clean_sufficient"]
 # the same histories again in an interpreter whose local time is far from UTC: the recording timestamp is a UTC time
@@ -143,8 +150,53 @@ def switched_off_grid():
                            cassette="memory", lookup=True, lookup_variants=True, stream="switched-off-in-flight")
 
 
+RESERVED = "_tape_recorder_operation"       # TapeRecorder.OPERATION_OUTPUT_ALIAS; TapeRecorder.OPERATION_CLASS = RESERVED + "_class"
+
+
+def reserved_text_grid():
+    """deterministic core, implementation only (the theorem's hypothesis sites_ok keeps these texts out of the model): the
+    recorder's reserved text turns up in what an operation captures WITHOUT being the operation's output entry - an
+    intercepted input called with the public constant TapeRecorder.OPERATION_CLASS as (keyword) argument (argument values
+    are part of input keys), an input whose alias carries the text, a record_data key with that prefix, an intercepted output
+    sent with that text - and then the operation returns / raises / is interrupted, right away or after one more capture"""
+    term = {"return": {"k": "ret", "e": {"lit": pv.i(1)}}, "raise": {"k": "raise", "ty": "ValueError"},
+            "interrupt": {"k": "interrupt"}}
+    out_cfg = dict(alias="send", static=True, handler="none", fail=True, default=pv.none())
+
+    def in_cfg(alias):
+        return dict(alias=alias, resolver={"kind": "none"}, cap=None, static=True, property=False, handler="none",
+                    prep_discards=False, run_missing=False, vmiss={"kind": "none"}, fallbacks={"kind": "none"})
+    ret = {"k": "ret", "e": {"lit": pv.s("value")}}
+    carriers = {
+        "input-argument": dict(k="in", cfg=in_cfg("get_meta"), body=ret, args=[{"lit": pv.s(RESERVED + "_class")}], kwargs=[]),
+        "input-keyword-argument": dict(k="in", cfg=in_cfg("get_meta"), body=ret, args=[], kwargs=[["field", {"lit": pv.s(RESERVED + "_class")}]]),
+        "input-alias": dict(k="in", cfg=in_cfg("read " + RESERVED + "_class"), body=ret, args=[{"lit": pv.i(1)}], kwargs=[]),
+        "data-key": dict(k="recdata", key=RESERVED + "_note", e={"lit": pv.i(7)}),
+        "data-key-exact-prefix": dict(k="recdata", key=RESERVED + " #1.output", e={"lit": pv.i(7)}),
+        "output-argument": dict(k="out", cfg=dict(out_cfg), body={"k": "ret", "e": {"lit": pv.none()}},
+                                args=[{"lit": pv.s("output: " + RESERVED + " #1.output")}], kwargs=[]),
+    }
+    k = 0
+    for name in sorted(carriers):
+        for how in ("return", "raise", "interrupt"):
+            for more in (False, True):
+                k += 1
+                tail = rd.clean(term[how])
+                if more:
+                    tail = dict(k="out", cfg=dict(out_cfg), body={"k": "ret", "e": {"lit": pv.none()}},
+                                args=[{"lit": pv.s("x")}], kwargs=[], next=tail)
+                body = dict(rd.clean(carriers[name]), next=tail)
+                mk = lambda b, cls: dict(kind="record", enabled=True, prm=dict(PLAIN_PRM), save_fails=False,    # noqa: E731
+                                         op=dict(cls=cls, classlevel=False, extractor={"kind": "none"}, body=b))
+                yield dict(interrupt_kind=INTERRUPT_KINDS[k % 4], draws=[], runs=[mk(body, "OpA"), mk(rd.clean(term[how]), "OpA"),
+                                                                                   mk(rd.clean(body), "OpB")],
+                           cassette="memory", lookup=True, lookup_variants=more, stream="reserved-text:" + name, impl_only=True)
+
+
 def generate(rng, tier):
-    cases = list(hierarchy_grid()) + list(extractor_shape_grid()) + list(switched_off_grid())
+    cases = list(hierarchy_grid()) + list(extractor_shape_grid()) + list(switched_off_grid()) + list(reserved_text_grid())
+    # a recorded operation inside which other scopes of the recorder open and close (nested replay / nested operation call)
+    cases += r2.nested_scope_cases()
     shape_rng = __import__("random").Random()
     shape_rng.setstate(rng.getstate())     # (a copy of the stream: the histories below stay what they were)
     n = 220 if tier == "quick" else 3000
@@ -180,6 +232,8 @@ def generate(rng, tier):
 def direct(case, obs):
     if "driver_exception" in obs:
         return [("driver", obs["driver_exception"] + obs.get("trace", "")[-400:])]
+    if r2.is_rec2(case):
+        return r2.direct_metadata(case, obs)
     if f07c_affected(obs):
         return []          # region of known finding F07c (reported by C01): nothing is concluded from such a case
     fails = []
@@ -283,6 +337,8 @@ _hist_features = features     # (from rec_common)
 
 
 def features(case):      # noqa: F811
+    if r2.is_rec2(case):
+        return r2.features(case)
     fs = _hist_features(case)
     if case.get("lookup_variants"):
         fs.add("lookup:properties-adjusted-after-construction")
@@ -292,6 +348,23 @@ def features(case):      # noqa: F811
         if r["kind"] == "record" and r["op"]["extractor"].get("shape"):
             fs.add("extractor-returns:" + r["op"]["extractor"]["shape"])
     return fs
+
+
+# ---- round-7 case kinds are implementation only: the hooks of rec_common apply to history cases --------------------------------
+def to_gallina(case, obs):      # noqa: F811
+    return None if r2.is_rec2(case) or case.get("impl_only") else _rc.to_gallina(case, obs)
+
+
+def explain(case, obs):      # noqa: F811
+    return "0%nat" if r2.is_rec2(case) or case.get("impl_only") else _rc.explain(case, obs)
+
+
+def nontrivial(case):      # noqa: F811
+    return True if r2.is_rec2(case) else _rc.nontrivial(case)
+
+
+def shrink_candidates(case):      # noqa: F811
+    return [] if r2.is_rec2(case) else _rc.shrink_candidates(case)
 
 
 MANIFEST = dict(
